@@ -244,11 +244,18 @@ class ForgedOracle(Oracle):
         desc = None
         expect_close = False
         if kind == 0:
-            mode = self.ch.choose(6)
+            mode = self.ch.choose(7)
+            gaps = [q for q in range(min(self.mine), self.next_seq) if q not in self.model_seen and q not in self.mine] \
+                if mode == 6 else []
             if mode == 0 and self.model_seen:  # duplicate of an earlier frame
                 seq = sorted(self.model_seen)[self.ch.choose(len(self.model_seen))]
                 cid = self.mine.get(seq, bytes([seq & 0xFF]) * self.clen)
                 rpt = min(self.ch.choose(seq + 1), seq)
+            elif gaps:  # a frame that was overtaken: a sequence number below ones already delivered
+                seq = gaps[self.ch.choose(len(gaps))]
+                cid = bytes([(seq * 7 + 3) & 0xFF]) * (self.clen - 1) + bytes([seq & 0xFF]) if self.clen > 1 else bytes(
+                    [seq & 0xFF])
+                rpt = min((0, 0, self.model_rpt)[self.ch.choose(3)], seq)
             else:
                 seq = self.next_seq + (0, 0, 0, 1, 3)[self.ch.choose(5)]
                 cid = bytes([(seq * 7 + 3) & 0xFF]) * (self.clen - 1) + bytes([seq & 0xFF]) if self.clen > 1 else bytes(
@@ -309,7 +316,10 @@ class ForgedOracle(Oracle):
         closing = conn._state.name != "CONNECTED" or conn._close_pending
         code = conn._close_event.error_code if conn._close_event is not None else None
         if info["kind"] == "ncid":
-            if closing and not info["close"]:
+            # (a frame that leaves the target without any usable connection ID - everything it holds is below
+            # Retire Prior To and the repeated ID was already used up - may be answered by closing: RFC 9000
+            # 5.1.2 "if the endpoint can no longer process the indicated connection IDs, it MAY close")
+            if closing and not info["close"] and len(info["active"]) > 0:
                 raise Violation("c18.accused", "closed-0x%x-within-limit" % (code or 0),
                                 "NEW_CONNECTION_ID(seq=%d, retire_prior_to=%d) leaves %d active connection IDs (limit "
                                 "%d), yet the %s closed with 0x%x %r; history %s" % (
